@@ -22,3 +22,8 @@ func VerifDependentBodySchema(block *hcl.Block, blockSchema *schema.BlockSchema)
 	bs, dk, res := schemahelper.NewBlockSchema(blockSchema).DependentBodySchema(block)
 	return bs, dk, int(res)
 }
+
+// VerifSetMaxCandidates lowers the candidate limit so that the limit logic can be exercised with small schemas.
+func VerifSetMaxCandidates(d *PathDecoder, n uint) {
+	d.maxCandidates = n
+}
